@@ -56,6 +56,9 @@ struct Side {
     /// stop reading once this many bytes (everything the peer writes) were read,
     /// i.e. never consume the peer's FIN, then drop: still a graceful close
     stop_after_bytes: Option<u64>,
+    /// owned halves: drop the read half at once (the peer never writes in that direction, so
+    /// nothing is unread: still a graceful close) and keep writing through the write half
+    drop_read_first: bool,
 }
 
 #[derive(Clone, Copy, Debug, PartialEq)]
@@ -307,6 +310,12 @@ async fn drive_side(stream: TcpStream, side: Side, wdir: u8, seed: u64, log: Log
                 }
                 drop(w);
             });
+            if side.drop_read_first {
+                log.push(Ev::StoppedReading { dir: rdir });
+                drop(r);
+                let _ = wt.await;
+                return;
+            }
             let aborted = reader(&mut r, &side.rops, rdir, &log, side.abort_after_reads, side.stop_after_bytes).await;
             if aborted {
                 log.push(Ev::Aborted { side: wdir });
@@ -391,6 +400,7 @@ fn gen_side(r: &mut Rng, allow_whole: bool, writes: bool) -> Side {
         close: if r.coin() { Close::Shutdown } else { Close::DropWriteHalf },
         abort_after_reads: None,
         stop_after_bytes: None,
+        drop_read_first: false,
     }
 }
 
@@ -453,6 +463,18 @@ fn gen(seed: u64) -> Scn {
             client.stop_after_bytes = Some(total(&server));
         } else {
             server.stop_after_bytes = Some(total(&client));
+        }
+    }
+    // write-only side: its read half is dropped at once, the peer is a pure sink that only closes
+    if matches!(fault, Fault::None) && client.abort_after_reads.is_none() && server.abort_after_reads.is_none() && client.stop_after_bytes.is_none() && server.stop_after_bytes.is_none() && r.chance(0.12) {
+        if r.coin() {
+            client.mode = Mode::Owned;
+            client.drop_read_first = true;
+            server.wops.clear();
+        } else {
+            server.mode = Mode::Owned;
+            server.drop_read_first = true;
+            client.wops.clear();
         }
     }
     if client.mode == Mode::IoSplit {
@@ -957,8 +979,8 @@ fn perm_scenario(p: Perm) -> ScenarioOut {
         peer: Peer::Remote,
         random_order: false,
         rng_seed: p.rng_seed,
-        client: Side { mode: Mode::Owned, wops: vec![], rops: vec![], close: Close::Shutdown, abort_after_reads: None, stop_after_bytes: None },
-        server: Side { mode: Mode::Owned, wops: vec![], rops: vec![], close: Close::Shutdown, abort_after_reads: None, stop_after_bytes: None },
+        client: Side { mode: Mode::Owned, wops: vec![], rops: vec![], close: Close::Shutdown, abort_after_reads: None, stop_after_bytes: None, drop_read_first: false },
+        server: Side { mode: Mode::Owned, wops: vec![], rops: vec![], close: Close::Shutdown, abort_after_reads: None, stop_after_bytes: None, drop_read_first: false },
         fault: Fault::None,
     };
     let ex = Exec { evs, result, overtakes: 0, steps: 0 };
